@@ -52,6 +52,14 @@ fn expected_of(rf: &crate::refdec::RefField) -> V {
     if rf.def.name == "me.status.sub_type" && rf.raw >= 3 {
         return V::S("reserved".into());
     }
+    if rf.def.name == "me.vel.kind" {
+        return V::U(match rf.raw {
+            0 => 0,
+            1 | 2 => 1,
+            3 | 4 => 3,
+            _ => 5,
+        });
+    }
     if rf.def.name == "me.ops.st" && rf.raw >= 2 {
         return V::S("reserved".into());
     }
